@@ -26,14 +26,14 @@ pub fn gen_spec(ch: &mut Ch) -> WorldSpec {
         }
     }
     let faults = ch.below(10, "faulty-config") >= 4;
-    let nclients = 1 + ch.weighted(&[50, 25, 15, 10], "nclients");
+    let nclients = 1 + if thorough() { ch.weighted(&[30, 20, 15, 15, 10, 10], "nclients") } else { ch.weighted(&[50, 25, 15, 10], "nclients") };
     let mut clients = Vec::new();
     let mut focus: Option<(usize, usize)> = None; // (req overhead, resp overhead)
     for ci in 0..nclients {
         let nlanes = 1 + ch.weighted(&[80, 20], "nlanes");
         let mut lanes = Vec::new();
         for li in 0..nlanes {
-            let nt = 1 + ch.below(3, "ntransfers") as usize;
+            let nt = 1 + ch.below(if thorough() { 5 } else { 3 }, "ntransfers") as usize;
             let mut transfers: Vec<TransferSpec> = Vec::new();
             while transfers.len() < nt {
                 // lanes of one client use different paths where possible, so
@@ -136,7 +136,7 @@ pub fn gen_spec(ch: &mut Ch) -> WorldSpec {
         server: ServerCfg { budget, expiry_ns: 1_000_000 * SEC, check_wire: false, snapshots: false, feed_all_types: false, record_held: false, held_every: 1, held_always_from: 0 },
         resources,
         clients,
-        max_events: 30_000,
+        max_events: if thorough() { 80_000 } else { 30_000 },
     }
 }
 
